@@ -24,7 +24,7 @@ from harness.core import run_oracle_cases
 PROP = 'C07'
 PROOF_MODULES = ['Ladybug.Props.C07']
 GREP_MODULES = ['Ladybug.Model.Codec', 'Ladybug.Model.Serial.Basic', 'Ladybug.Model.Serial.Coll',
-                'Ladybug.Gen.DataTypeNames', 'Ladybug.Proofs.C07Lemmas', 'Ladybug.Drv.C07',
+                'Ladybug.Gen.DataTypeNames', 'Ladybug.Drv.C07',
                 'Ladybug.DrvCore', 'Ladybug.Py', 'Ladybug.Model.Cal']
 RULE = ('instances are described by plain-data specs (class + constructor arguments) drawn type-directed '
         'per class: leap years, 29 Feb, wrapping / overnight periods, sub-hourly steps, empty / string / '
@@ -434,6 +434,9 @@ def root_of(op, inp):
         spec.get('lp') if c == 'Legend' and (spec.get('lp') or {}).get('cls') == 'LegendParametersCategorized' else None
     if lpc is not None and not lpc.get('names') and op in DICT_OPS:
         devs.add('lpc_default_names')
+    if c == 'Wea' and not spec.get('annual', True) and op in DICT_OPS and \
+            (spec['ap']['args'][2], spec['ap']['args'][5]) != (0, 23):
+        devs.add('wea_discontinuous')
     if textual and c in ('Header', 'Collection'):
         mk = _meta_kind((spec if c == 'Header' else spec['header']).get('meta'))
         if mk == 'nonstring':
@@ -1147,7 +1150,7 @@ MODEL_CLASSES = {
 }
 
 
-def _mutations(d, rng, n):
+def _mutations(d, rng, n, strings=True):
     """Variants of a dictionary: key order, dropped keys, nulls, wrong types, bad values."""
     out = []
     for _ in range(n):
@@ -1167,7 +1170,7 @@ def _mutations(d, rng, n):
                 # negative hour/minute are normalised by float arithmetic in dt.py (Time(23, -1) is
                 # 22:59): outside the property and outside the model
                 v[k] = rng.choice([0, 13, 32, 24, 61, 255, 256, 7] + ([] if k in ('hour', 'minute') else [-1]))
-            elif isinstance(v[k], str) and k != 'unit':     # unit lists of standard types: not modelled
+            elif isinstance(v[k], str) and k != 'unit' and strings:   # unit lists of standard types: not modelled
                 v[k] = rng.choice(['', 'Nope', 'GenericType', 'Temperature'])
         elif r < 0.7:
             v['zz_unknown'] = rng.choice([1, 'x', None, [1], {'a': 1}])
@@ -1244,7 +1247,8 @@ def _correspondence(ctx):
             for d in ds[:len(ds) // 2]:
                 v = copy.deepcopy(d)
                 sub = rng.choice(['data_type', 'analysis_period'])
-                v[sub] = _mutations(v[sub], rng, 1)[0]
+                # (no string replacement inside a header: a changed class would change the unit list)
+                v[sub] = _mutations(v[sub], rng, 1, strings=False)[0]
                 muts.append(v)
         _model_rt(ctx, 'rtmut_' + cls, cls, muts, reader)
 
@@ -1329,6 +1333,6 @@ def _correspondence(ctx):
                 elif r < 0.7 and 'datetimes' in v and v['datetimes']:
                     v['datetimes'] = v['datetimes'][1:] + v['datetimes'][:1]
                 else:
-                    v['header'] = _mutations(v['header'], rng, 1)[0]
+                    v['header'] = _mutations(v['header'], rng, 1, strings=False)[0]
                 muts.append(v)
             _model_rt(ctx, 'rtmut_' + tag, tag, muts, reader)
